@@ -113,6 +113,7 @@ func VerifC04_RecycleAfterShrinkFreedTable() { VerifC15_RecycleAfterShrinkFreedT
 func VerifC15_RecycleAfterArchetypeMove()    { VerifC04_RecycleAfterArchetypeMove() }
 
 // C11: component data (also the payload of relation components) is unchanged by single-entity moves
-func VerifC11_RelSetRelations() { VerifC04_RelSetRelations() }
-func VerifC11_RelCopy()         { VerifC01_RelCopy() }
-func VerifC11_RelExchange()     { VerifC01_RelExchange() }
+// (concrete, pairwise different values: a world whose data a move corrupted stays evaluable)
+func VerifC11_RelSetRelations() { vConcreteValues = true; VerifC04_RelSetRelations() }
+func VerifC11_RelCopy()         { vConcreteValues = true; VerifC01_RelCopy() }
+func VerifC11_RelExchange()     { vConcreteValues = true; VerifC01_RelExchange() }
